@@ -37,21 +37,22 @@ def _init_worker(repo):
     import tinyflux
     _G["tf"] = tinyflux
     _G["th"] = concretise.Theme()
-    _G["th2"] = type("EmptyMeas", (concretise.Theme,), {"name": "plain+empty-measurement", "meas": [""] + concretise.Theme.meas[1:]})()
+    _G["th2"] = type("EmptyMeas", (concretise.Theme,), {"name": "plain+empty-measurement+empty-tag-value", "meas": [""] + concretise.Theme.meas[1:],
+                                                         "strs": [""] + concretise.Theme.strs[1:]})()
     _G["th2"].check()
 
 
 def _names_measurement(q):
     if q["k"] in ("not", "and", "or"):
         return _names_measurement(q["a"]) or (q["k"] != "not" and _names_measurement(q["b"]))
-    return q["k"] == "meas" or q["op"] == "noop"
+    return q["k"] in ("meas", "tag") or q["op"] == "noop"       # ... or a tag value: those are the slots the second theme changes
 
 
 def _eval_chunk(args):
     exprs, univ = args
     tf = _G["tf"]
     out = []
-    for th in (_G["th"], _G["th2"]):          # second pass: the lowest measurement name is the empty string
+    for th in (_G["th"], _G["th2"]):          # second pass: the lowest measurement name and the lowest tag value are the empty string (falsy, matched by ".*")
         points = [th.point(tf, ap) for ap in univ]
         cache = {}
         for e in exprs:
